@@ -138,7 +138,8 @@ def differential_obligations(prop, tier, seed):
                 r = {"suite": su, "built": False, "found": False, "note": "differential run unavailable: %s" % e}
             o = {"id": "bounded:differential:%s" % su, "engine": "differential replay of the real crate", "kind": "bounded",
                  "bound": "%d s of small / random inputs against a naive oracle, seed %d (public API incl. the functions outside the verified set)" % (secs, seed),
-                 "ok": not r.get("found"), "function": "suite %s" % su, "file": SUITE_FILE.get(su, "src/"), "skipped": not r.get("built", True)}
+                 "ok": not r.get("found"), "function": "suite %s" % su, "file": SUITE_FILE.get(su, "src/"), "skipped": not r.get("built", True),
+                 "iterations": r.get("iterations"), "seconds": secs}
             if r.get("found"):
                 o["failures"] = [{"msg": "%s: %s observed %s, expected %s" % (r.get("structure"), r.get("call"), r.get("observed"), r.get("expected")),
                                   "source": str(r.get("input", ""))[:300]}]
@@ -396,6 +397,9 @@ def main():
             "obligations": n_ob, "discharged": n_ok,
             "obligations_proved_kind": len(proved), "obligations_bounded_kind": len(bounded),
             "bounded_stand_ins": [{"id": o["id"], "bound": o.get("bound")} for o in bounded],
+            "differential_exploration": [{"suite": o["id"].split(":")[-1], "seconds": o.get("seconds"), "generated_cases": o.get("iterations"),
+                                          "skipped_because_the_program_does_not_build": bool(o.get("skipped"))}
+                                         for o in obligations if o["id"].startswith("bounded:differential:")],
             "checker_cmd": " ; ".join(cmds) if cmds else "none",
             "trusted_base": sorted(trusted) + conf.get("assumptions", []),
             "functions_under_contract": sorted({o["file"] + " :: " + o["function"] for o in obligations if o.get("function")}),
